@@ -739,6 +739,19 @@ where
                 }
             }
         }
+        Op::GFrom { h, g } => {
+            if !g_free!(*g) {
+                return "skip".into();
+            }
+            match take_h!(*h) {
+                None => "skip".into(),
+                Some(v) => {
+                    let id = ident(&v);
+                    put_g!(*g, (Guard::from_inner(v), id.clone()));
+                    format!("g{}={}", g, id)
+                }
+            }
+        }
         Op::GDeref { g } => match take_g!(*g) {
             None => "skip".into(),
             Some((guard, id0)) => {
